@@ -136,7 +136,10 @@ func cloneOf(s *Sx) fp.Clone[any] {
 		}
 		return tcbox.CloneTuple(es)
 	case "generic":
-		return tcbox.BoxClone(clone.Generic(wrapperGeneric, cloneOf(a[1])))
+		// clone.Generic must not depend on the descriptor's Kind/Type: vary them (deterministically from the instance expression)
+		g := wrapperGeneric
+		g.Kind = []string{fp.GenericKindStruct, fp.GenericKindTuple, fp.GenericKindNewType, ""}[len(a[1].String())%4]
+		return tcbox.BoxClone(clone.Generic(g, cloneOf(a[1])))
 	}
 	panic("cloneOf " + s.String())
 }
